@@ -55,7 +55,7 @@ CHECKS = {
  "C19": ("model_checking", "explicit-state exploration of the real interpreter, every program run five ways (none / recording / scribbling debugger, direct and through debug.NewDebugger), with a lifecycle automaton over the callback trace and snapshot-sequence comparison",
          "For every program of the bounded spaces: identical verdict and error text with and without debuggers, callback trace accepted by the lifecycle automaton, scribbling over every snapshot changes neither the trace nor the snapshot sequence, snapshot indices consistent, consecutive snapshots consistent with the reference effect of the instruction.",
          "Lifecycle grammar derived from debug.go's documentation and thread.execute; same reference as C05.", "DESIGN.md §4 C19"),
- "C07": ("model_checking", "exhaustive exploration of Engine.Execute over all 65,536 flag words, a product of script pairs x transaction contexts x input indices x debuggers and all short byte strings, executed in isolated child processes with death/hang attribution and an allocation bound",
+ "C07": ("model_checking", "exhaustive exploration of Engine.Execute over all 65,536 flag words, a product of script pairs x transaction contexts x input indices x debuggers, all short byte strings, and one Engine value reused across every ordered pair of contexts, executed in isolated child processes with death/hang attribution and an allocation bound",
          "Every execution of the bounded spaces must return nil or an error: panics are recovered per case, log.Fatal / out-of-memory / hangs are attributed to the exact case through a progress marker and reproduced twice in fresh processes, and a 32 MiB allocation bound catches count-driven allocations.",
          "Child processes run under RLIMIT_AS 6 GiB with a 90 s stall watchdog; WithState is excluded (documented experimental).", "DESIGN.md §4 C07"),
  "C06": ("exploration", "exhaustive product of signature-opcode scenarios with real ECDSA signatures (lock forms x key encodings x 17 hash types x 9 signature kinds x all 64 signature-flag subsets x both eras; every m-of-n<=3 with every tuple over the slot alphabet), each executed in lockstep against the reference CHECKSIG/CHECKMULTISIG model",
@@ -63,7 +63,7 @@ CHECKS = {
          "Reference sig-op model written after the node's interpreter.cpp as the author knows it, certified on the signature vectors of script_tests.json; SIGHASH_FORKID implies STRICTENC as the library documents. Known finding: FORKID-bit signatures verified without the FORKID flag use the FORKID digest (cannot be fixed: a repository example relies on it).", "DESIGN.md §4 C06"),
  "C18": ("model_checking", "stateless schedule exploration of the real fees.go and Engine.Execute under a hand-written cooperative scheduler (instrumented from the working tree at check time), DFS over choice prefixes with iterative preemption bound then unbounded, vector-clock happens-before race monitor, deadlock detection and a brute-force linearizability oracle",
          "Every interleaving (at lock-operation granularity, with writer preference modelled) of every 2- and 3-thread scenario over the FeeQuote/FeeQuotes operation alphabet is executed on the real code; each schedule is checked for unordered conflicting accesses to guarded fields, deadlock, panics and linearizability against a plain-map model; Execute on a shared engine is checked for shared-state accesses and for verdicts equal to sequential ones. Schedules are replayable and every finding is re-executed before it is reported.",
-         "Scheduling points only at lock operations and thread start/end (sufficient given the race monitor covers unsynchronised accesses); memory-model effects below that are covered only by the supplementary free-running -race pass in the thorough tier; instrumentation is syntactic (fields of mutex-holding structs, engine fields, package-level variable writes).", "DESIGN.md §4 C18"),
+         "Scheduling points only at lock operations and thread start/end (sufficient given the race monitor covers unsynchronised accesses); memory-model effects below that are covered only by the supplementary free-running -race pass (both tiers); the access probes come from a go/types pass over packages bt, bscript and bscript/interpreter (every field reached through a pointer, every package-level variable, locals aliasing map/slice fields) - accesses made through closures, reflection (encoding/json) or other packages are not probed.", "DESIGN.md §4 C18"),
 }
 
 PENDING_REASON = "check not built yet in this round (planned, see DESIGN.md §4); not claimed until its exhaustive check exists and is quiet on the unchanged tree"
@@ -91,7 +91,7 @@ def main():
         "setup_cmd": "./setup.sh",
         "hooks": {
             "guard": "verif",
-            "enable": "no hook is committed to /repo: C18's scheduling points are generated from the current fees.go at check time and injected with `go build -tags verif -overlay .work/overlay.json`",
+            "enable": "no hook is committed to /repo: C18's scheduling points and access probes are generated from the current sources of packages bt, bscript and bscript/interpreter at check time and injected with `go build -tags verif -overlay .work/overlay.json`",
             "baseline_off_cmd": "cd /repo && go test -mod=mod -json -vet=off -count=1 -timeout 25m ./...",
             "source_commits": [],
             "add_only": True,
